@@ -5,7 +5,8 @@ def corpus_cases():
     """every operation on every kind of target (within the domain the property specifies)"""
     return hist.matrix_cases("c01", ["mem", "phys", "alt_mem", "alt_phys", "ovl_mm", "ovl_m", "ovl_pp", "ovl_sub", "alt_ovl",
                                      "ovl_alt", "ovl_ovl"], c01_domain=True) + hist.deleted_target_cases("c01") + \
-        hist.neighbour_name_cases("c01", ["mem", "phys", "alt_mem", "ovl_mm", "ovl_m", "ovl_sub"])
+        hist.neighbour_name_cases("c01", ["mem", "phys", "alt_mem", "ovl_mm", "ovl_m", "ovl_sub"]) + \
+        hist.dotted_name_cases("c01", ["mem", "phys", "alt_mem", "alt_alt", "ovl_mm", "ovl_alt", "alt_ovl"])
 
 
 P = histprop.HistProp(
